@@ -170,3 +170,20 @@ Proof.
   intros progs sched Hp c Fin. pose proof buf_programs_all as T. rewrite forallb_forall in T.
   apply (forall_scheds_sound _ _ _ _ _ bcode bexec 16 _ _ (T progs Hp) sched). exact Fin.
 Qed.
+
+(** * C20-K8: an operation addressed to a node whose creation by another thread is still in flight.
+      Thread 1 is handed id 3 first; thread 0 creates node 4 completely and then deletes "node 3",
+      which is not inserted yet: delete_node answers false although no sequential order of the four
+      operations gives (thread 0: id 4, false; thread 1: id 3, false) — id allocation and insertion
+      of create_node are two steps. *)
+Lemma create_guess_refuted_l :
+  exists progs sched,
+    progs = [[GCreateNode [3]; GDeleteNode 3]; [GCreateNode [2; 3]; GAddLabel 3 2]] /\
+    sched = [1; 0; 0; 0; 1; 0; 1; 1; 1; 0; 0; 1; 1; 1]%nat /\
+    k_id_guess 3 progs = true /\
+    let c := grun sched (ginit (gsetup lpg_setup) progs) in
+    finished c = true /\
+    outputs c = [[(GCreateNode [3], OZ 4); (GDeleteNode 3, OB false)]; [(GCreateNode [2; 3], OZ 3); (GAddLabel 3 2, OB false)]] /\
+    lobs_consistent (observe (sh c) lpg_labels) = true /\
+    chk_lpg_seq lpg_setup progs lpg_labels (outputs c) (observe (sh c) lpg_labels) = false.
+Proof. eexists; eexists. vm_compute. repeat split; reflexivity. Qed.
